@@ -634,7 +634,7 @@ func init() {
 			// Heap.Fix: down, and up only if it did not move down; -1 ignored
 		}})
 
-	register(&Obligation{ID: "C10.h", Props: []string{"C10", "C15"}, Template: "value-identity",
+	register(&Obligation{ID: "C10.h", Props: []string{"C10", "C15", "C06"}, Template: "value-identity",
 		Desc: "Operator.HandleDeploy builds a new TimerStore / TimerRegistry on the database it has just opened, with the operator's own key-group range and the deployed source-runner ids; new key-group queues start with an empty, not-known-complete cache",
 		Run: func(r *Run) {
 			f := r.P.Func("workers/operator", "(*Operator).HandleDeploy")
